@@ -847,8 +847,11 @@ impl Vm {
         let mut count = 0;
         let mut rest = expr;
         while rest.is_pair() {
-            // An unquote in tail position, (a . ,b), reads as (a unquote b)
-            if count > 0 && rest.car().unwrap().is_unquote() {
+            // An unquote or quasiquote in tail position, (a . ,b) or (a . `b),
+            // reads as (a unquote b) or (a quasiquote b)
+            if count > 0
+                && (rest.car().unwrap().is_unquote() || rest.car().unwrap().is_quasiquote())
+            {
                 break;
             }
             let car = rest.car().unwrap();
